@@ -405,6 +405,22 @@ pub fn main_dispatch(checks: &[(&'static str, CheckFn, Meta)]) -> ! {
         std::process::exit(2)
     };
     let ctx = Ctx { id: id.clone(), tier, seed, worker, replay };
+    // Watchdog on the *real* clock: a subject that livelocks (e.g. under a mutation) must not hang
+    // the check for ever. Expiry is a machinery error (exit 2), never a verdict.
+    {
+        let limit: f64 = std::env::var("VERIF_TIMEOUT_S").ok().and_then(|v| v.parse().ok()).unwrap_or(match tier {
+            Tier::Quick => 900.0,
+            Tier::Thorough => 3.0 * 3600.0,
+        });
+        let idw = id.clone();
+        std::thread::spawn(move || loop {
+            unsafe { libc::usleep(500_000) };
+            if real_now() - real0 > limit {
+                eprintln!("MACHINERY-ERROR {idw}: wall-clock limit of {limit}s exceeded (livelock in the subject or the harness?)");
+                unsafe { libc::_exit(2) };
+            }
+        });
+    }
     crate::shim::arm();
     let t0 = Instant::now();
     let out = match crate::shim::catch(|| f(&ctx)) {
